@@ -766,6 +766,16 @@ impl Engine {
         self.w.contracts.get_mut(contract).unwrap().storage = store;
         self.calls[idx].ok = true;
         self.calls[idx].attrs = resp.attributes.iter().map(|a| (a.key.clone(), a.value.clone())).collect();
+        if kind == Kind::Hub {
+            // observation point inside the transaction: the hub's stored pool totals (public raw
+            // storage) and its delegations right after this handler, before its messages run
+            if let Some(st) = self.w.contracts[contract].storage.get(crate::obs::HUB_STATE_KEY).and_then(|b| from_json::<basset::hub::State>(b).ok()) {
+                let d = self.w.total_delegated(contract);
+                self.calls[idx].attrs.push(("sim:books_b".into(), st.total_bond_bsei_amount.to_string()));
+                self.calls[idx].attrs.push(("sim:books_s".into(), st.total_bond_stsei_amount.to_string()));
+                self.calls[idx].attrs.push(("sim:delegated".into(), d.to_string()));
+            }
+        }
         for sub in resp.messages {
             if sub.reply_on != ReplyOn::Never {
                 return Err(self.fail(idx, ErrKind::Harness, "submessage with a reply mode is not modelled".into()));
